@@ -142,12 +142,25 @@ class Interp:
         ws = self.wires(st["args"])
         via = st.get("via", "add_op")
         md = st.get("md")
+        late = []
+        if (self.late_args and ws and st["op"][0] in ("ext", "custom", "Not", "DivMod")
+                and via == "add_op"   # (the command form of a registered op takes exactly its wires)
+                and sum(map(ord, st["id"])) % 5 == 1):
+            # an operation with a fixed signature is added with a prefix of its arguments; the last one or two (local
+            # ones) are linked afterwards (see st_call)
+            k2 = len(ws)
+            while k2 > max(0, len(ws) - 2) and b.hugr[ws[k2 - 1].out_port().node].parent == b.parent_node:
+                k2 -= 1
+            ws, late = ws[:k2], ws[k2:]
         if via == "add_op":
             n = b.add_op(op, *ws, metadata=md) if md is not None else b.add_op(op, *ws)
         elif via == "add":
             n = b.add(op(*ws), metadata=md) if md is not None else b.add(op(*ws))
         else:
             (n,) = b.extend(op(*ws))
+        for i, w in enumerate(late):
+            b.hugr.add_link(w.out_port(), n.inp(len(ws) + i))
+            self.late_linked += 1
         self.nodes[st["id"]] = n
         self.handles.append((f"{via}:{st['op'][0]}", n, len(st["outs"])))
         for i, wid in enumerate(st["outs"]):
